@@ -29,14 +29,14 @@ def build(prop):
         for opk in (0, 1, 2):
             if (pre, opk) == (6, 1): continue      # erase(key) of a 7-fold run: measured memory-out at 30 GB; the 3-fold run (prefix 7) is used instead, the long run is in the thorough tier
             if (cont, pre, opk) == (1, 1, 1): continue   # multiset erase(key) on distinct keys: 15 M variables / 22 min, thorough tier (the duplicate-run prefix 7 covers erase(key) of a multiset)
-            q_ = not ((cont, pre) in ((1, 1), (1, 6)) or (pre, opk) == (7, 1))   # the whole quick tier has to end within 15 min: multiset on distinct keys / 7-fold run and erase(key) of the 3-fold run (9 min) are thorough
+            q_ = not ((cont, pre) in ((1, 1), (1, 6)) or (pre, opk) in ((7, 1), (7, 2), (1, 2), (2, 0), (2, 2)))   # the whole quick tier has to end within 15 min: multiset on distinct keys / 7-fold run and erase(key) of the 3-fold run (9 min) are thorough
             qs.append(mk(prop, cont, 4, 4, 0, pre, 1, 0, q_, opk=opk))
     # erase(iterator): measured 10-25 min and 8-14 GB per query; the quick tier keeps the underflow-between-unequal-siblings shape, the other shapes are in the thorough tier
-    qs.append(mk(prop, 0, 4, 4, 0, 9, 1, 0, True, opk=3)); qs.append(mk(prop, 0, 4, 4, 0, 9, 1, 0, True, opk=2))   # underflow with unequal siblings: shift from the fuller side
+    qs.append(mk(prop, 0, 4, 4, 0, 9, 1, 0, False, opk=3)); qs.append(mk(prop, 0, 4, 4, 0, 9, 1, 0, True, opk=2))   # underflow with unequal siblings: shift from the fuller side
     for opk in (0, 1, 2, 3): qs.append(mk(prop, 0, 4, 4, 0, 8, 1, 0, True, opk=opk))      # emptying the tree and growing the first leaf
-    for opk in (0, 1, 2): qs.append(mk(prop, 0, 4, 4, 1, 1, 1, 0, opk == 1, opk=opk))          # binary in-node search
+    for opk in (0, 1, 2): qs.append(mk(prop, 0, 4, 4, 1, 1, 1, 0, False, opk=opk))          # binary in-node search (thorough)
     for opk in (0, 2): qs.append(mk(prop, 3, 4, 4, 0, 7, 1, 0, False, opk=opk))            # multimap, duplicate run: measured 21 M variables / memory-out -> thorough tier (the per-key value-multiset comparison of the harness is the expensive part)
-    for opk in (0, 1, 2, 3, 5): qs.append(mk(prop, 2, 4, 4, 0, 1, 1, 1, True, opk=opk))  # map: whole-tree operations
+    for opk in (0, 1, 2, 3, 5): qs.append(mk(prop, 2, 4, 4, 0, 1, 1, 1, opk != 5, opk=opk))  # map: whole-tree operations
     qs.append(mk(prop, 2, 4, 4, 0, 0, 1, 1, True, opk=1))   # assignment FROM an empty tree into a non-empty one
     for bulk in (0, 1, 4, 5, 6, 9): qs.append(mk(prop, 2, 4, 4, 0, 1, 1, 1, bulk == 5, opk=4, bulk=bulk))   # bulk_load of a symbolic sorted range of enumerated length
     # thorough: containers x capacity pairs x both searches x scripts, one operation kind per query; two symbolic operations for (4,4)
